@@ -29,6 +29,8 @@ def gen_case(g, kind, Dx, Dy, Dk, R=1, Da=None):
         d.update(M=g.mat(Dy, Dx + Dk), b=g.vec(Dy), Sig=g.spd(Dy))
         if g.randint(0, 1) == 0:
             d["Sig0"] = g.spd(Dy)          # built with another noise covariance, then update_Sigma (lin.with_history)
+        elif g.randint(0, 1) == 0:
+            d["np_params"] = True; d["twice"] = True      # numpy parameters, every call made twice on the same object
         if kind == "lrbf":
             d.update(c=g.mat(Dk, Dx), l=[[(g.qpos() if Dx == 1 else Fr(g.randint(2, 6), 2)) for _ in range(Dx)] for _ in range(Dk)])
         else:
@@ -96,10 +98,13 @@ def build(d):
     if lin._MODE[0] in ("before", "reuse") and key in lin._MEMO:
         return lin._MEMO[key], lin.impl_pdfv(d["p"])
     Sig_build = d.get("Sig0") if d.get("Sig0") is not None else d.get("Sig")
+    # parameters handed over as NUMPY arrays in some cases (accepted by the library; an in-place numpy operation on them would
+    # leak into the object or into the caller's arrays, which a jax array can never show)
+    arr = (lambda x: gtlib.fl(x)) if d.get("np_params") else jarr
     if kind == "lrbf":
-        c = ac.LRBFGaussianConditional(M=jarr([d["M"]]), b=jarr([d["b"]]), mu=jarr(d["c"]), length_scale=jarr(d["l"]), Sigma=jarr([Sig_build]))
+        c = ac.LRBFGaussianConditional(M=arr([d["M"]]), b=arr([d["b"]]), mu=arr(d["c"]), length_scale=arr(d["l"]), Sigma=arr([Sig_build]))
     elif kind == "lsem":
-        c = ac.LSEMGaussianConditional(M=jarr([d["M"]]), b=jarr([d["b"]]), W=jarr(d["W"]), Sigma=jarr([Sig_build]))
+        c = ac.LSEMGaussianConditional(M=arr([d["M"]]), b=arr([d["b"]]), W=arr(d["W"]), Sigma=arr([Sig_build]))
     else:
         cls = dict(exp=ac.HeteroscedasticExpConditional, coshm1=ac.HeteroscedasticCoshM1Conditional,
                    heaviside=ac.HeteroscedasticHeavisideConditional, relu=ac.HeteroscedasticReLUConditional)[kind]
